@@ -385,7 +385,8 @@ func (db *Database) buildIndexes(table string,
 	}
 
 	nold := len(ts.Indexes)
-	ts.Indexes = append(ts.Indexes, newIdxs...)
+	// copy on write (SetupNewIndexes modifies the existing indexes)
+	ts.Indexes = append(ts.Indexes[:nold:nold], newIdxs...)
 	newIdxs = ts.SetupNewIndexes(nold)
 	nlayers := ti.Indexes[0].Nlayers()
 	list := sortlist.NewSorting(func(x uint64) bool { return x == 0 },
